@@ -493,6 +493,8 @@ class MarkovNetwork(UndirectedGraph):
 
         else:
             graph_copy = MarkovNetwork(self.edges())
+            # The edge list alone would drop nodes that have no edge.
+            graph_copy.add_nodes_from(self.nodes())
             for edge in edge_set:
                 graph_copy.add_edge(edge[0], edge[1])
             return graph_copy
